@@ -109,6 +109,27 @@ def rule_vec_forms(ctx, f, rid):
                   "HashMap field (no ManuallyDrop / mem::forget anywhere in the crate) so that drop glue flushes each local histogram")
     for ty, path, flush_callee in (("GenericLocalCounterVec", "prometheus::counter::GenericLocalCounterVec::", ["GenericLocalCounter::flush", "LocalMetric::flush"]),
                                    ("LocalHistogramVec", H + "LocalHistogramVec::", ["LocalHistogram::flush", "LocalMetric::flush"])):
+        # who may touch the cache: a cached local holds the only copy of its pending data, so entries leave the map only through remove_label_values
+        allowed = {"with_label_values": {"entry"}, "remove_label_values": {"remove"}}
+        readonly = {"len", "is_empty", "contains_key", "get", "get_mut", "keys", "values", "values_mut", "iter", "iter_mut", "capacity", "fmt", "reserve"}
+        n_uses = 0
+        for k in f.order:
+            bb_ = f.bodies[k]
+            sp = strip_generics(bb_.path)
+            if ty not in sp or ty != "GenericLocalCounterVec":
+                continue   # (a LocalHistogram flushes itself when dropped, so evicting one from LocalHistogramVec loses nothing; a local counter has no Drop)
+            for c in bb_.calls():
+                if not c.args or peel(c.args[0]) != SELF_FIELD("local"):
+                    continue
+                meth = strip_generics(c.callee).split("::")[-1]
+                fn = [x for x in sp.split("::") if not x.startswith("{")][-1]
+                n_uses += 1
+                if meth not in readonly and meth not in allowed.get(fn, set()):
+                    ctx.ob(rid, "%s::%s|local.%s" % (ty, fn, meth), False,
+                           "%s::%s applies `%s` to the cache of locals: entries (and the un-flushed data they hold) may leave the cache only through remove_label_values, "
+                           "and enter it only through entry() in with_label_values" % (ty, fn, meth), site=c.span)
+        if ty == "GenericLocalCounterVec":
+            ctx.floor(rid, "uses of %s.local" % ty, n_uses, 3)
         b = ctx.anchor(rid, ty + "::flush", f.body(path + "flush"))
         if b:
             ctx.saw(b)
